@@ -45,6 +45,7 @@ PROPS["C11"] = dict(l1_ops=l1.UNARY_T + l1.UNARY_G + l1.BINARY_GG + l1.BINARY_GT
 PROPS["C07"] = dict(l1_ops=["hat", "vee", "generator", "innerWeights", "bracket", "inner", "sqwnorm", "wnorm"],
                     l2="C07", groups_l1=MODELLED + ["B:SE2,SO3,R2", "B:SE_2_3,R1,SE2", "B:R2,SO3"], c07n_groups=gen.BUNDLES[3:], n_l1=(400, 6000), n_l2=(80, 2000))
 
+PROPS["C14"] = dict(l1_ops=[], custom="c14", n_l1=(0, 0), n_l2=(0, 0))
 PROPS["C12"] = dict(l1_ops=[], custom="c12", n_l1=(0, 0), n_l2=(0, 0))
 PROPS["C19"] = dict(l1_ops=l1.ALIASES, custom="c19", l1_masks=True, n_l1=(600, 8000), n_l2=(0, 0))
 
@@ -397,6 +398,67 @@ def custom_c19(builds, r, thorough, res):
     return bad, viol, n + m["cells"]
 
 
+def custom_c14(builds, r, thorough, res):
+    """static-state inventory + init-dependency trace (translator input) and the concurrency runs"""
+    import conc
+    viol, bad, n = [], [], 0
+
+    def V(group, op, output, tags, req, what):
+        return dict(property="C14", group=group, op=op, output=output, tags=tags, request=req, what=what, err=float("inf"), tol=0.0)
+    g = conc.generate()
+    res.notes["statics"] = dict(inventory=len(g["inventory"]), by_kind=dict(collections.Counter(e["kind"] for e in g["inventory"])),
+                                guards_observed=len(g["guards"]), dependency_edges=len(g["edges"]), problems=len(g["problems"]),
+                                unknown_guards=len(g["unknown"]), unobserved_entries=len(g["unobserved"]), cyclic=g["cyclic"])
+    for e, why in g["problems"]:
+        viol.append(V(e["file"], e.get("where", ""), "shared-mutable-state", [e["kind"]], "%s:%d: %s" % (e["file"], e["line"], e["decl"][:160]),
+                      "static-duration state that the concurrency argument does not allow: " + why))
+    for f in g["flags"]:
+        viol.append(V("build", "flags", "threadsafe-statics", [], f, "build description disables thread-safe initialisation of local statics"))
+    if not g["ok"]:
+        bad.append(dict(request="harness/conc.cpp (guard trace build)", tags=["trace"], impl=g["log"][-1500:], model="", why="the concurrency harness does not build/run: " + g["log"][-300:]))
+        return bad, viol, n
+    if g["cyclic"]:
+        viol.append(V("statics", "initialisation", "cycle", [], "EDGE list of `conc_trace 1 1 1`", "the initialisers of the lazily initialised statics depend on each other cyclically"))
+    for u in g["unknown"][:5]:
+        bad.append(dict(request=u, tags=["inventory"], impl=u, model="", why="a guarded static in the binary is not in the source inventory (scanner out of date): " + u[:200]))
+    for e in g["unobserved"][:5]:
+        bad.append(dict(request="%s:%d" % (e["file"], e["line"]), tags=["inventory"], impl="", model=e["decl"][:200],
+                        why="a local static of the source is never initialised by the concurrency harness (not exercised): %s:%d %s" % (e["file"], e["line"], e.get("name"))))
+    res.add_cells([("static", conc.short(x)[:80]) for x in g["guards"]])
+    launches = []
+    for kind, counts, seeds in (("tsan", [2, 3, 8, 16] if not thorough else [2, 3, 4, 6, 8, 12, 16, 24], range(3 if not thorough else 25)),
+                                ("plain", [2, 4, 16, 32] if not thorough else [2, 4, 8, 16, 32, 64], range(6 if not thorough else 80))):
+        ok, exe = conc.build(kind)
+        if not ok:
+            bad.append(dict(request="harness/conc.cpp (%s build)" % kind, tags=[kind], impl=exe[-1500:], model="", why="the concurrency harness does not build: " + exe[-300:]))
+            continue
+        ref = conc.launch(exe, 1, 1, 1)
+        n += 1
+        if ref["rc"] != 0 or not ref["hash"]:
+            viol.append(V("conc", kind, "single-thread", [kind], "%s 1 1 1" % exe, "single-threaded reference run failed: rc=%s %s %s" % (ref["rc"], ref["line"], ref.get("err", "")[-300:])))
+            continue
+        jobs = [(nt, int(r.randrange(1 << 30))) for nt in counts for _ in seeds]
+        from concurrent.futures import ThreadPoolExecutor
+        with ThreadPoolExecutor(max_workers=4) as ex:
+            outs = list(ex.map(lambda j: (j, conc.launch(exe, j[0], j[1], 2)), jobs))
+        for (nt, sd), o in outs:
+            n += 1
+            res.add_cells([("launch", kind, nt)])
+            cmd = "%s %d %d 2" % (exe, nt, sd)
+            if o["timed_out"]:
+                viol.append(V("conc", kind, "deadlock", ["threads%d" % nt], cmd, "the run did not finish (deadlock or livelock on first use of a static?)"))
+            elif o["tsan"]:
+                viol.append(V("conc", kind, "data-race", ["threads%d" % nt], cmd, "ThreadSanitizer: " + o["tsan"][:1500]))
+            elif o["rc"] != 0 or not o["line"].startswith("RESULT ok"):
+                viol.append(V("conc", kind, "per-thread-results", ["threads%d" % nt], cmd, "threads did not all obtain the single-thread results: rc=%s %s %s" % (o["rc"], o["line"], o.get("err", "")[-300:])))
+            elif o["hash"] != ref["hash"]:
+                viol.append(V("conc", kind, "launch-dependent", ["threads%d" % nt], cmd, "results differ from the single-threaded launch of the same binary (hash %s vs %s)" % (o["hash"], ref["hash"])))
+        launches.append((kind, len(jobs)))
+    res.notes["launches"] = dict(launches)
+    res.cov["samples"].append(dict(kind="launch", cmd="conc_tsan <threads> <seed> <rounds>", answer="RESULT ok items=215 threads=8 hash=…"))
+    return bad, viol, n
+
+
 def custom_c13(builds, r, thorough, res):
     """cast<>() between float and double: model (L1, both directions) and validity of the result"""
     import math
@@ -496,7 +558,7 @@ def custom_c12(builds, r, thorough, res):
     return bad, viol, n
 
 
-CUSTOM = {"c13": custom_c13, "c12": custom_c12, "c19": custom_c19, "c08": custom_c08, "c09": _purity("c09"), "c10": _purity("c10")}
+CUSTOM = {"c14": custom_c14, "c13": custom_c13, "c12": custom_c12, "c19": custom_c19, "c08": custom_c08, "c09": _purity("c09"), "c10": _purity("c10")}
 
 
 def proof_cov(po):
